@@ -167,6 +167,20 @@ def main():
                     break
         driver.close()
 
+    # every listed known finding is replayed from its recorded witness, so that it is reported on every run as long as
+    # the real code still exhibits it (and silently disappears from the output once it has been repaired)
+    if not args.replay:
+        driver = Driver()
+        for finding in kf.load().get('findings', []):
+            if finding['property'] != prop or 'witness' not in finding:
+                continue
+            mod = importlib.import_module('suites.' + finding['witness']['suite'])
+            wres = mod.replay_witness(finding['witness'], driver)
+            failures += [f for f in wres.failures if f['property'] == prop]
+            for dsg in wres.disagreements:
+                corr_broken.append(wres)
+                break
+        driver.close()
     known, unknown = kf.split(prop, failures)
     # known findings listed for this property must still be printed when they reproduce
     os.makedirs(os.path.join(VERIF, 'replays'), exist_ok=True)
